@@ -32,15 +32,14 @@ def grant_dnf(p, w, which):
     L = RP if which == 'put' else RG
     ex = paths.Explorer(p, s.ci.key, tracked=set(s.lists), atomic={tables.LEVEL_UPDATER, *tables.TRIGGERS}, unroll=1)
     out = []
-    nonlin = False
+    nonlin = []
     for pa in ex.paths(fi):
         if pa.raises:
             continue
         idx = next((i for i, e in enumerate(pa.events) if e.kind == 'op' and e.list == L and e.op in ('append', 'insert')), None)
         if idx is not None:
             conds = [e for e in pa.events[:idx] if e.kind == 'cond' and not e.d.get('synthetic')]
-            if any(not e.atoms for e in conds):
-                nonlin = True
+            nonlin += [('' if e.polarity else 'not ') + f'({e.text})' for e in conds if not e.atoms]
             conj = tuple(sorted(set(events_atoms(conds))))
             if conj not in out:
                 out.append(conj)
@@ -74,6 +73,17 @@ def run(p: Project, tier: str) -> Result:
                     continue
                 r.analysed_functions.add(fi.key)
                 G, nonlin = grant_dnf(p, w, which)
+                if nonlin and len(G) == 1:
+                    # the grant depends on something that is not a length of the store (a flag, a clock): a query that only compares lengths cannot
+                    # agree with it -- unless the query tests something else too, in which case this rule cannot decide the equivalence
+                    qtests = [n for n in walk_no_nested(fi.node) if isinstance(n, (ast.If, ast.IfExp, ast.Return))]
+                    extra = sorted({a.attr for t in qtests for a in ast.walk(t) if isinstance(a, ast.Attribute)} - set(s.lists)
+                                   - {'capacity', attr, 'env', 'now'})
+                    if not extra:
+                        r.fail(rule, key, f'the store grants a {which} reservation only under {sorted(set(nonlin))}, which is not a length of the store; '
+                                          f'{mname}() compares lengths only, so it answers True while a reservation issued now is left waiting',
+                               src(fi.module), fi.node.lineno)
+                        continue
                 if len(G) != 1 or nonlin:
                     raise AnalysisError(f'{s.label}: {which}-grant predicate is not a single linear conjunction ({len(G)} granting paths)')
                 g = G[0]
@@ -289,6 +299,9 @@ def get_delay_shape(fi, p=None, cls_key=None):
             if ret != D:
                 return False, 'constant branch does not return the constant'
         else:
+            if not nexts and not calls and ret != D:
+                return False, ('a completing path returns a value without consulting the delay source on this call (a remembered value): the source is '
+                               'not drawn once per request - two items pulled in the same instant share one draw and every later draw is shifted')
             return False, 'no dispatch on generator / callable / constant'
         checked = False
         for e in evs:
